@@ -131,8 +131,19 @@ def build(cfg):
 
     c = cfg["cls"]
     if c == "rect":
+        dt = cfg.get("axdtype")  # how the user hands the axes over: float64 array (default), other dtype, list, tuple
+
+        def axis(a):
+            if dt in (None, "float64"):
+                return np.asarray(a, dtype=float)
+            if dt == "list":
+                return list(a)
+            if dt == "tuple":
+                return tuple(a)
+            return np.asarray(a, dtype=dt)
+
         return fm.RectilinearGrid(
-            axes=[np.asarray(a, dtype=float) for a in cfg["axes"]],
+            axes=[axis(a) for a in cfg["axes"]],
             data_location=cfg["loc"],
             order=cfg["order"],
             axes_reversed=cfg["rev"],
